@@ -205,7 +205,7 @@ def _main(a, prop, mod, t0, tmp):
            'counters': {k: v for k, v in sorted(counters.items()) if not k.startswith('feature:')},
            'monitors': monitors, 'anchors_reached': anchors, 'max_steps_observed': max_steps,
            'inconclusive_cases': len(inconc), 'inconclusive_samples': inconc[:5],
-           'known_findings_seen': {k: len(v) for k, v in known_seen.items()},
+           'known_findings_seen': {k: max(len(v), counters.get('known:' + k, 0)) for k, v in known_seen.items()},
            'batches': len(results), 'floors': floors, 'floors_unmet': unmet,
            'flaky_unconfirmed': [(m, p) for m, p, *_ in flaky],
            'repo_head': repo_head()}
@@ -231,7 +231,7 @@ def _main(a, prop, mod, t0, tmp):
     if max_steps:
         print('  max_steps: ' + ', '.join('%s=%d' % kv for kv in sorted(max_steps.items())))
     for fid, vs in sorted(known_seen.items()):
-        print('KNOWN-FINDING: property=%s %s: %s (%d cases this run)' % (prop, fid, known[fid]['what_fails'], len(vs)))
+        print('KNOWN-FINDING: property=%s %s: %s (%d cases this run)' % (prop, fid, known[fid]['what_fails'], max(len(vs), counters.get('known:' + fid, 0))))
     rc = 0
     for mech, path, v in confirmed:
         print('VIOLATION property=%s replay=%s' % (prop, path))
